@@ -40,6 +40,16 @@ def model_input(op, impl):
     return "case %s nilish=%s %s" % (toks[1], _field(impl, "nilish") or "0", impl.split(" | sexp=", 1)[1])
 
 
+def pg_model_input(op, impl):
+    if not impl.startswith("ok ") or " | tree=" not in impl:
+        return impl.split()[0] if impl.split() else "bad"
+    return "tree %s %s" % (op.split()[1], impl.split(" | tree=", 1)[1])
+
+
+def pg_impl_view(impl):
+    return impl.split(" | tree=", 1)[0]
+
+
 def impl_view(impl):
     """Compared with the model: copy equality + aliased fields, and every walk's returned value and event log."""
     if not impl.startswith("ok "):
@@ -99,7 +109,9 @@ SPEC = {
     "gate_modules": ["Dawgs.Model.C11", "Dawgs.Spec.C11", "Dawgs.Proofs.C11", "Dawgs.Proofs.C11Data", "Dawgs.Proofs.C11Nodup", "Dawgs.Props.C11",
                      "Dawgs.Generated.C11"],
     "suites": [{"name": "c11", "model_suite": "c11", "monitor_suite": "c11mon", "model_input": model_input,
-                "impl_view": impl_view, "keep_prefix": 1, "thorough_seeds": 2}],
+                "impl_view": impl_view, "keep_prefix": 1, "thorough_seeds": 2},
+               {"name": "c11pg", "model_suite": "c11pg", "monitor_suite": "c11mon", "model_input": pg_model_input,
+                "impl_view": pg_impl_view, "keep_prefix": 1, "thorough_seeds": 1}],
     "nontrivial": nontrivial,
     "finding_key": finding_key,
     "rule": "cases = the type registry check + random query-model values of EVERY node type built by reflection over the struct definitions "
@@ -108,9 +120,11 @@ SPEC = {
             "Cypher text of the repository corpora; per case the real Copy (DeepEqual + rendering equality, aliased fields by address, 3-phase mutate-and-recompare) and both "
             "real walkers with the never-acting visitor plus 4 (thorough 16; all (k,act) when <= 24 callbacks) scripted visitors consume/done/error at the k-th callback, "
             "k uniform over the walk's length (splitmix64(VERIF_SEED)); the Lean model gets the real value as an S-expression and must predict copy equality, the aliased "
-            "fields and every event log; non-trivial = value has >= 3 nodes and a scripted action changed the traversal or a nil branch was reported; distinct = distinct op lines",
+            "fields and every event log; suite c11pg: walk.PgSQL with the same scripts over the PostgreSQL AST the real translator emits for every corpus query, branch tree "
+            "decoded from the never-acting walk, model must reproduce every log incl. Visit placement; non-trivial = value has >= 3 nodes and a scripted action changed the traversal or a nil branch was reported; distinct = distinct op lines",
     "expected_branches": ["walk.consume_fired", "walk.done_fired", "walk.error_fired", "walk.cerr", "walk.verr", "values.nilish",
-                          "values.with_errors", "copy.shared_nonempty", "copy.indep_broken", "copy.opaque_ref_payload", "parse.error"],
+                          "values.with_errors", "copy.shared_nonempty", "copy.indep_broken", "copy.opaque_ref_payload", "parse.error",
+                          "pg.statements", "pg.walk.ok", "pg.walk.verr"],
     "trusted_base": [
         "tools/extract/goext mode c11 (go/ast, syntactic): schema, copy table, branch tables; cross-checked on every case by the harness (type names, field names and order from "
         "reflection must equal the extracted schema; aliased-field report and both walkers' event logs must equal what the model derives from the extracted tables)",
@@ -121,6 +135,8 @@ SPEC = {
         "copy_equal_and_fresh assumes Copy does not panic on the value (copyPanics = false); copyTotal_inst shows every node type and every deep field's static type has a case, "
         "and the harness observed no panic on any clean value; typed-nil pointers / nil slice elements are outside the property's quantifier (8 copy() methods dereference a nil receiver)",
         "values are trees: a pointer shared inside one model is copied twice by Copy (harness counter values.dag = 0 on all parsed corpus models)",
+        "walk.PgSQL: only the walk.Generic protocol is claimed (no completeness statement exists for the pgsql cursor constructor; statements containing node types it has no case for "
+        "— *pgsql.RecordShape, pgsql.Wildcard, Insert/Update/Delete — make it return an error, counted as pg.unhandled.* in branch_hist)",
     ],
 }
 
